@@ -215,6 +215,33 @@ amend('C05', 'Gallina model of Namespace/markers/CallListerVisitor/forward_signa
       technique='Coq proof (walker model + execution semantics of a statement grammar, end-to-end theorem) + extracted/in-Coq correspondence + real execution of generated programs')
 
 
+# ---- amendments after the compound-context model, the invariance / provenance / order proofs and the term-level bridge ----
+amend('C05', note='PARTIAL: inside three statement grammars soundness of the walker\'s flags is proved for every execution (Model/Exec.v: the own scope; Model/ExecNested.v: nested functions '
+      'and lambdas holding forwarding calls; Model/ExecTry.v: try/except/else/finally at any depth with exceptions raised after any statement, with, comprehensions incl. an iterable that '
+      'mutates **kwargs and a loop target shadowing a star: C05_flags_sound_try for every outcome, completed or propagating), and for the own scope END TO END (C05_end_to_end); each grammar is '
+      'tied to CPython per run (compile = ast.parse tree, model flags = CallListerVisitor flags, real execution under a fault plan among the model\'s outcomes, untouched objects really received). '
+      'A defect was found by proving and repaired (562a505: comprehensions were read element first; C05_flags_sound_old_order_refuted keeps the old order). Outside the grammars (for/while loops, '
+      'callee routes other than a global name, mutation in nested scopes = known finding with refutation C05_nested_refuted) soundness against execution is exploration: every generated program is '
+      'really run. Known findings C05:bound-parameter-reaccepted, C05:role-inconsistent-merge, C05:hide-kwargs-named-pok, C05:nested-scope-mutation listed in known_findings.json. ' + DISC_NOTE)
+_c6 = CHECKS['C06']
+amend('C06', note=(_c6[2] + ' ' if _c6[2] else '') + 'Invariance under irrelevant variation is PROVED on the statement grammars at the level of the discovered signature: inserting unrelated calls / reads of *args at any '
+      'position (also inside branches), wrapping statements in a two-way branch (C06_discover_neutral_anywhere, C06_discover_branch_anywhere), unrelated nested defs / helper calls / lambdas '
+      '(C06_discover_nested_unrelated); the refutations delimit what is NOT irrelevant (handing **kwargs to other code, rebinding the callee name, deferring a call past a later change). For the '
+      'full forwarding grammar (13 contexts, 10 routes incl. the stacked pass-through) invariance is exploration.')
+_c8 = CHECKS['C08']
+amend('C08', note=(_c8[2] + ' ' if _c8[2] else '') + 'n-ary embed: C08_embed_n_src_ok_iff characterises EXACTLY when the result map is well formed (no forwarded star spelled like a parameter the fold keeps; '
+      'necessity without side condition), truthfulness / list shape / duplicate-freedom need no star-name hypothesis; plain n-ary merge of ANY signatures: every list is a concatenation of whole '
+      'input lists (C08_merge_src_shape_n_partial), at-most-once is refuted without role consistency (= known finding C08:nary-merge-duplicate).')
+_c10 = CHECKS['C10']
+amend('C10', note=(_c10[2] + ' ' if _c10[2] else '') + 'Order clause proved parameter by parameter for binary and n-ary merge (C10_merge2_order, C10_merge2_order_pairwise, C10_merge_order: contributors of each input '
+      'form a subsequence of that input\'s positionals) and for forwards (C10_forwards_made, C10_forwards_order); keyword-only parameters do NOT keep an input\'s order (C10_merge2_order_kwo_refuted), '
+      'what holds per class is C10_merge2_order_kwo_partial. Per run the flat n-ary merge is also compared with the merge taken one pair at a time (C09_merge_fold_law).')
+_c13 = CHECKS['C13']
+amend('C13', note=(_c13[2] + ' ' if _c13[2] else '') + 'The bridge from call shapes to term-level evaluation is proved (Proofs/WrappersBridge.v): value-level binding succeeds iff the shape is accepted '
+      '(C13_bind_named_iff_accepts), a generated def raises the binding TypeError iff its shape is rejected, and for a stack of any depth a call accepted by the reported signature never evaluates '
+      'to Raise type_error (C13_stack_call_no_type_error; Combination: C13_comb_call_no_type_error), under the non-colliding clause incl. the wrapper\'s own first parameter.')
+
+
 def main():
     props = [json.loads(l)['id'] for l in open(os.path.join(VERIF, 'properties.jsonl'))]
     extra = {}
